@@ -42,6 +42,9 @@ def install_seams():
     daskexec.install()
     uuid.uuid4 = _seeded_uuid4
     proxies.install()
+    from . import workload_b
+
+    workload_b._register()  # Python-level hdc code is pre-emptible inside dask tasks as well
 
 
 def reseed_uuid(key):
